@@ -135,3 +135,80 @@ class ModifierTableInverse(Lemma):
             rev[cls] = ident
         fwd = dict(table)
         return [(f"{cls} is written as '{rev[cls]}', which loads as {cls}", [], z3.BoolVal(fwd[rev[cls]] == cls)) for cls in sorted(rev)]
+
+
+CORRM = "sigma.correlations"
+COND_OPS = ("LT", "LTE", "GT", "GTE", "EQ", "NEQ")
+
+
+@register
+class CorrelationConditionToDict(Contract):
+    """the written form of a threshold condition: {operator name in lower case: count} for EVERY count (0 included), plus 'field' iff a
+    field reference is set and 'percentile' iff a percentile is set (0 included), nothing else"""
+    id = "C06.SigmaCorrelationCondition.to_dict"
+    target = f"{CORRM}:SigmaCorrelationCondition.to_dict"
+    props = ("C06", "C10")
+    cases = tuple((op, fr, pc) for op in COND_OPS for fr in (False, True) for pc in (False, True))
+
+    def args(self, I, case):
+        op, fr, pc = case
+        E = I.E.index.lookup(f"{CORRM}:SigmaCorrelationConditionOperator")
+        f = {"op": EnumVal(E, op), "count": I.fresh("count", "int"), "fieldref": I.fresh("fieldref", "str") if fr else None, "percentile": I.fresh("percentile", "int") if pc else None, "source": None}
+        if fr:
+            I.ctx.assume(z3.Length(f["fieldref"].t) > 0)
+        return {"self": SObj(I.E.index.lookup(f"{CORRM}:SigmaCorrelationCondition"), dict(f)), "args": [], "f": f, "case": case}
+
+    def post(self, I, inp, r):
+        c, f = I.ctx, inp["f"]
+        op, fr, pc = inp["case"]
+        r = I.force(r) if not isinstance(r, dict) else r
+        ok = isinstance(r, dict)
+        c.require(ok, "a dict is returned")
+        if ok:
+            want = {op.lower()} | ({"field"} if fr else set()) | ({"percentile"} if pc else set())
+            c.require(set(r) == want, f"keys are exactly {sorted(want)} whatever the count / percentile values are (0 is a value)")
+            c.require(r.get(op.lower()) is f["count"], "the count is written unchanged under the operator's name")
+            if fr:
+                c.require(r.get("field") is f["fieldref"], "the field reference is written unchanged")
+            if pc:
+                c.require(r.get("percentile") is f["percentile"], "the percentile is written unchanged")
+
+    def frame_ok(self, I, inp, obj, name):
+        return False
+
+
+@register
+class CorrelationConditionFromDict(Contract):
+    """loading the written form gives back operator, count, field reference and percentile"""
+    id = "C06.SigmaCorrelationCondition.from_dict"
+    target = f"{CORRM}:SigmaCorrelationCondition.from_dict"
+    props = ("C06", "C10")
+    cases = tuple((op, fr, pc) for op in COND_OPS for fr in (False, True) for pc in (False, True))
+
+    def args(self, I, case):
+        op, fr, pc = case
+        f = {"count": I.fresh("count", "int"), "fieldref": I.fresh("fieldref", "str") if fr else None, "percentile": I.fresh("percentile", "int") if pc else None}
+        d = {op.lower(): f["count"]}
+        if fr:
+            d["field"] = f["fieldref"]
+        if pc:
+            d["percentile"] = f["percentile"]
+        return {"self": ClassRef(I.E.index.lookup(f"{CORRM}:SigmaCorrelationCondition")), "args": [d], "f": f, "case": case}
+
+    def post(self, I, inp, r):
+        c, f = I.ctx, inp["f"]
+        op, fr, pc = inp["case"]
+        ok = isinstance(r, SObj) and getattr(r.cls, "name", "") == "SigmaCorrelationCondition"
+        c.require(ok, "a SigmaCorrelationCondition is returned")
+        if ok:
+            g = r.fields
+            c.require(isinstance(g.get("op"), EnumVal) and g["op"].name == op, f"operator read back (got {g.get('op')!r})")
+            c.require(ops.mk_bool_term(ops.py_eq(I, g.get("count"), f["count"])), "count read back (0 included)")
+            c.require(g.get("fieldref") is f["fieldref"], "field reference read back")
+            c.require((g.get("percentile") is None) if not pc else ops.mk_bool_term(ops.py_eq(I, g.get("percentile"), f["percentile"])), "percentile read back (0 included)")
+
+    def raises(self, I, inp, exc):
+        I.ctx.require(False, f"the written form of a condition is rejected ({exc_name(exc)})")
+
+    def frame_ok(self, I, inp, obj, name):
+        return False
